@@ -131,6 +131,29 @@ def read(ds, f):
     return has, out
 
 
+def reference_emodulus(ds, cfg, temp, scenario):
+    """the Young's modulus of the documented scenario, computed with
+    dclab.features.emodulus.get_emodulus on the dataset's own inputs"""
+    import warnings
+    from dclab.features.emodulus import get_emodulus
+    kw = dict(area_um=np.array(ds["area_um"][:], dtype=float),
+              deform=np.array(ds["deform"][:], dtype=float),
+              channel_width=20.0, flow_rate=0.04,
+              px_um=float(cfg["pixel"]), lut_data=LUT_ID)
+    if scenario == "B":
+        kw.update(medium=float(cfg["viscosity"]), temperature=None,
+                  visc_model=None)
+    else:
+        kw.update(medium=cfg["medium"],
+                  visc_model=cfg["model"] if cfg["model"] != "absent"
+                  else "herold-2017",
+                  temperature=float(cfg["temperature"]) if scenario == "C"
+                  else TEMP[temp])
+    with warnings.catch_warnings():
+        warnings.simplefilter("ignore")
+        return np.asarray(get_emodulus(**kw), dtype=float)
+
+
 def same(a, b):
     if a[0] != b[0]:
         return False
@@ -215,6 +238,25 @@ def _replay(job):
                     else "a fresh dataset differs", why),
                     ctx + " steps %s from %s" % (steps, descr(cfg0, temp0)),
                     i))
+            if f == "emodulus" and state.get("scenario") in ("A", "B", "C",
+                                                             "none"):
+                # the scenario the documentation prescribes, computed with
+                # the function behind the feature
+                sc = state["scenario"]
+                if sc == "none":
+                    if got[0] == "ok":
+                        out.append(("emodulus is computed although no "
+                                    "scenario applies", ctx, i))
+                else:
+                    ref = reference_emodulus(ds, state["cfg"], state["temp"],
+                                             sc)
+                    if got[0] != "ok" or not np.allclose(
+                            got[1], ref, rtol=1e-12, atol=0, equal_nan=True):
+                        out.append(("emodulus does not follow scenario %s "
+                                    "(%s)" % (sc, "not available" if got[0]
+                                              != "ok" else "other values"),
+                                    ctx + " steps %s from %s" % (
+                                        steps, descr(cfg0, temp0)), i))
             if f == "emodulus" and state["cIgnoresTemp"] and got[0] == "ok" \
                     and same(got, want):
                 w2 = fresh(state["cfg"], 0, f)[1]
